@@ -559,7 +559,8 @@ class GeometryNode(SceneNode):
             return
         elif matparent is None:
             matparent = E.technique_common()
-            self.xmlnode.append(E.bind_material(matparent))
+            # <bind_material> is the first child, in front of any <extra>
+            self.xmlnode.insert(0, E.bind_material(matparent))
         elif len(self.materials) == 0 and matparent is not None:
             bindnode = self.xmlnode.find('%s' % tag('bind_material'))
             self.xmlnode.remove(bindnode)
